@@ -321,10 +321,180 @@ def t_matrix():
     return stats
 
 
+# ------------------------------------------------------------------ one compiled query, several documents, interleaved
+
+
+def rooted_filter(rng, doc, ctx):
+    """a filter that certainly has a `$`- or `_`-rooted operand (cacheable) next to per-node ones"""
+    fg = FilterGen(rng, doc, depth=1, ext=True, ctx_data=ctx)
+    cands = list(doc.values()) if isinstance(doc, dict) else list(doc)
+    root = rng.choice(["$", "$", "_"])
+    start = [doc] if root == "$" else [ctx]
+    rq = ["q", root, fg.singular_segments(start, rng.choice([1, 1, 2]))]
+    lq = ["q", "@", fg.singular_segments(cands or [None], rng.choice([0, 1, 1]))]
+    core = ["cmp", rng.choice(["==", "!=", "<", "<=", ">", ">="]), lq, rq] if rng.random() < 0.8 else ["test", rq]
+    r = rng.random()
+    if r < 0.3:
+        return core
+    other = fg.logical(cands, 1)
+    return [rng.choice(["and", "or"]), core, other] if r < 0.65 else [rng.choice(["and", "or"]), other, core]
+
+
+async def _round_robin(path, docs, ctxs, order):
+    its = []
+    for d, c in zip(docs, ctxs):
+        its.append((await path.finditer_async(d, filter_context=c)).__aiter__())
+    outs = [[] for _ in docs]
+    live = list(range(len(docs)))
+    k = 0
+    while live:
+        i = live[order[k % len(order)] % len(live)]
+        k += 1
+        try:
+            outs[i].append(await its[i].__anext__())
+        except StopAsyncIteration:
+            live.remove(i)
+    return [("ok", norm(o)) for o in outs]
+
+
+def judge_shared(stats: Stats, loop, text, docs, ctxs, rng):
+    env = jsonpath.DEFAULT_ENV
+    try:
+        path = env.compile(text)
+    except Exception:  # noqa: BLE001
+        stats.excluded["compile-error"] += 1
+        return
+    wants = [sync_outcome(path, d, c) for d, c in zip(docs, ctxs)]
+    if any(w[0] == "err" for w in wants):
+        return
+    case = {"text": text, "docs": docs, "ctxs": ctxs, "variant": "shared-path"}
+    # (1) round-robin consumption of finditer_async iterators over the plain documents
+    order = [rng.randrange(8) for _ in range(32)]
+    stats.ev()
+    try:
+        got = loop.run_until_complete(_round_robin(path, docs, ctxs, order))
+    except Exception as e:  # noqa: BLE001
+        stats.fail("async-differs:shared-path:raised:%s" % type(e).__name__, case, "round-robin consumption raised %r" % (e,))
+        return
+    for w, g, d in zip(wants, got, docs):
+        compare(stats, case, "path.finditer_async", w, g, "shared-path:round-robin")
+    # (2) gathered findall_async / finditer_async over documents with suspending item getters
+    seq = [rng.randint(0, 3) for _ in range(64)]
+    it = itertools.cycle(seq)
+    wrapped = [wrap(d, lambda: next(it)) for d in docs]
+    wants_w = [sync_outcome(path, w, c) for w, c in zip(wrapped, ctxs)]
+    wants_v = [sync_values(path, w, c) for w, c in zip(wrapped, ctxs)]
+
+    async def fi(w, c):
+        return "ok", norm([m async for m in await path.finditer_async(w, filter_context=c)])
+
+    async def fa(w, c):
+        return "vals", await path.findall_async(w, filter_context=c)
+
+    async def both():
+        return await asyncio.gather(*([fi(w, c) for w, c in zip(wrapped, ctxs)] + [fa(w, c) for w, c in zip(wrapped, ctxs)]))
+
+    stats.ev()
+    try:
+        res = loop.run_until_complete(both())
+    except Exception as e:  # noqa: BLE001
+        stats.fail("async-differs:shared-path:raised:%s" % type(e).__name__, case, "gathered evaluation raised %r" % (e,))
+        return
+    n = len(docs)
+    for i in range(n):
+        compare(stats, case, "path.finditer_async", wants_w[i], res[i], "shared-path:gathered")
+        compare(stats, case, "path.findall_async", wants_v[i], res[n + i], "shared-path:gathered")
+
+
+@st.composite
+def shared_cases(draw):
+    names = st.sampled_from(["a", "b", "c"])
+    docs = draw(st.lists(D.containers(name_st=names, scalars=st.sampled_from([0, 1, 2, 3, "a", "b", None, True]), max_leaves=8), min_size=2, max_size=4))
+    return docs, draw(st.integers(0, 2**32 - 1))
+
+
+def t_shared(seed, n):
+    stats = Stats()
+    loop = asyncio.new_event_loop()
+
+    def body(x):
+        docs, s = x
+        rng = random.Random(s)
+        stats.case()
+        ctxs = [{"a": rng.choice([0, 1, 2, "a"]), "b": rng.choice([0, 1, 2, "b"]), "c": [rng.randint(0, 3)]} for _ in docs]
+        base = rng.choice(docs)
+        f = rooted_filter(rng, base, ctxs[0])
+        seg = ["d" if rng.random() < 0.4 else "c", [["f", f]]]
+        text = Renderer(None).query(["q", "$", [seg]], top=True)
+        judge_shared(stats, loop, text, docs, ctxs, rng)
+        stats.cls("shared-path")
+        stats.nt("shared", text, canon(docs))
+        if len(stats.samples) < 3:
+            stats.sample({"query": text, "documents": short(docs, 200), "schedule": "round-robin + gathered with suspending getters"})
+
+    try:
+        hyp_run(shared_cases(), body, n, seed, stats)
+    finally:
+        loop.close()
+    return stats
+
+
+# ------------------------------------------------------------------ error parity with a function extension that raises
+
+
+class _Strict(jsonpath.function_extensions.FilterFunction):
+    arg_types = [jsonpath.function_extensions.ExpressionType.VALUE]
+    return_type = jsonpath.function_extensions.ExpressionType.VALUE
+
+    def __call__(self, v):
+        if isinstance(v, str):
+            raise jsonpath.JSONPathTypeError("vfnum() does not accept strings")
+        return v
+
+
+class RaisingEnv(jsonpath.JSONPathEnvironment):
+    def setup_function_extensions(self):
+        super().setup_function_extensions()
+        self.function_extensions["vfnum"] = _Strict()
+
+
+def t_errors():
+    """async raises exactly when sync does, whichever operand raises and whatever the other operand decides"""
+    stats = Stats()
+    env = RaisingEnv()
+    loop = asyncio.new_event_loop()
+    rng = random.Random(9)
+    docs = [[{"a": 1, "b": 1}, {"a": 0, "b": 2}], [{"a": 1, "b": "s"}], [{"a": 0, "b": "s"}], [{"b": "s"}], [{"a": "s", "b": 1}],
+            {"x": {"a": False, "b": "s"}, "y": {"a": True, "b": 3}}, [{"a": None, "b": "s"}, {"a": 1}]]
+    R = "vfnum(@.b) >= 0"
+    L = ["@.a", "@.a == 1", "!@.a", "@.zz", "vfnum(@.a) == 1", "@.a > 0"]
+    texts = []
+    for l in L:
+        for op in ("&&", "||"):
+            texts += ["$[?%s %s %s]" % (l, op, R), "$[?%s %s %s]" % (R, op, l), "$[?(%s %s %s) && @.a]" % (l, op, R), "$[?!(%s %s %s)]" % (l, op, R),
+                      "$..[?%s %s %s]" % (l, op, R), "$[?@.zz || (%s %s %s)]" % (l, op, R)]
+    texts += ["$[?%s]" % R, "$[?vfnum(@.b) == vfnum(@.a)]", "$[?count(@[?%s]) > 0]" % R, "$[?@[?%s]]" % R]
+    n = 0
+    try:
+        for text in texts:
+            for doc in docs:
+                for variant in ("plain", "wrapped"):
+                    judge(stats, loop, text, doc, None, variant, rng, env=env)
+                    n += 1
+            stats.nt("errors", text)
+    finally:
+        loop.close()
+    stats.subspaces.append({"name": "logical expressions whose left/right operand raises JSONPathTypeError (registered function) x deciding/non-deciding other operand x 7 documents x {plain, async-getter}",
+                            "size": n, "exhaustive": True})
+    return stats
+
+
 def tasks(tier, seed):
-    ts = [{"name": "matrix", "fn": "t_matrix"}]
+    ts = [{"name": "matrix", "fn": "t_matrix"}, {"name": "errors", "fn": "t_errors"}]
+    for k in range(4):
+        ts.append({"name": "shared-%d" % k, "fn": "t_shared", "kw": {"seed": mix(seed, ID, "s", k), "n": 500 if tier == "quick" else 8000}})
     n = 1200 if tier == "quick" else 20000
-    for k in range(16):
+    for k in range(12):
         ts.append({"name": "random-%d" % k, "fn": "t_random", "kw": {"seed": mix(seed, ID, k), "n": n}})
     return ts
 
@@ -332,6 +502,16 @@ def tasks(tier, seed):
 def replay(case):
     stats = Stats()
     loop = asyncio.new_event_loop()
+    if case.get("variant") == "shared-path":
+        try:
+            for s_ in range(8):
+                judge_shared(stats, loop, case["text"], case["docs"], case["ctxs"], random.Random(s_))
+        finally:
+            loop.close()
+        return stats
+    if "vfnum" in case.get("text", ""):
+        loop.close()
+        return t_errors()
     try:
         for s in range(6):
             rng = random.Random(s)
